@@ -357,13 +357,14 @@ class Generator:
                     cpos.append(i)
                     inv_pending = False
             i += 1
-        canary = ['proof', '{', 'assert', '(', 'false', ')', ';', '}']
+        # each canary is guarded by its own unconstrained boolean so that canaries sharing one SMT query
+        # (functions verified with #[verifier::loop_isolation(false)]) fire independently of each other
         co = []
         cset = set(cpos)
         for i, t in enumerate(out):
             co.append(t)
             if i in cset:
-                co += canary
+                co += lex('proof { if (vstd::pervasive::arbitrary::<spec_fn(int) -> bool>())(%d) { assert(false); } }' % len(co))
         it.canary_full = join(co)
         it.n_canaries = len(cpos)
         if it.kind == 'const' and impl is None:
@@ -443,10 +444,10 @@ class Generator:
                         emit(body, it if own else None)
                         emit('}')
                     else:
-                        if it.kind == 'fn' and it.modpath and it.header_tokens and it.header_tokens[0] != 'pub':
-                            # private free fn of a module (e.g. buint::radix::ilog2): the impl blocks that call it are
-                            # emitted at the crate root, so widen its visibility in the generated file (emission only)
-                            body = re.sub(r'(?m)^(?=(const |unsafe |fn ))', 'pub ', body, count=1)
+                        if depth > 0:
+                            # a free fn that is private to its module: the generator emits impl blocks at the crate
+                            # root (not in their defining module), so such a callee must be nameable from there
+                            body = re.sub(r'^((?:#\[[^\]]*\]\s*)*)((?:const\s+|unsafe\s+)*fn\b)', r'\1pub(crate) \2', body, count=1)
                         emit(body, it if own else None)
             for k, sub in node.items():
                 if k == 'items':
